@@ -578,16 +578,30 @@ def shared_a10(ctx):
 def rank_decode(ctx):
     ob = ctx.ob("C02.6", "rank decode: cs_n is decoded from the top rankbits of cmd.ba and the DFI bank from the remaining bits (partition of "
                          "ba); all ranks are selected for STEER_REFRESH on the phase on which the multiplexer issues the refresher's commands", 2)
-    v = mux_view(ctx, 2)
-    multi = v.variant_map({"log2_int(len(dfi.p0.cs_n))": True, "log2_int(len(dfi.p1.cs_n))": True})
+    for nph in (2, 4):     # 4 phases: the write-mode command phase is not phase 0 (rdphase 2 / wrphase 3), so "refresh on the command phase" differs from "on phase 0"
+        _rank_decode_n(ctx, ob, nph)
+
+
+def _rank_decode_n(ctx, ob, nph):
+    v = mux_view(ctx, nph)
+    multi = v.variant_map({"log2_int(len(dfi.p%d.cs_n))" % j: True for j in range(nph)})
     f = v.fsms("")[0]
-    ref_phase = None
+    ref_phases = set()
     for s in f.states:
         for l in v.fsm_leaves(f, s):
             if l.kind == "assign" and str(l.target).startswith("steerer.sel[") and isinstance(l.value, Const) and l.value.v == 3:
-                ref_phase = int(str(l.target)[len("steerer.sel["):-1])
-    if not ob.need(ref_phase is not None, "phase on which STEER_REFRESH is selected not found"):
+                ref_phases.add(int(str(l.target)[len("steerer.sel["):-1]))
+    if not ob.need(len(ref_phases) >= 1, "nphases=%d: phase on which STEER_REFRESH is selected not found" % nph):
         return
+    # selector values the multiplexer can put on each phase (a value that is never assigned there is unreachable and not part of the specification)
+    reach = {j: {0} for j in range(nph)}
+    for l in v.leaves:
+        if l.kind == "assign" and str(l.target).startswith("steerer.sel[") and l.inst == "":
+            j = int(str(l.target)[len("steerer.sel["):-1])
+            if isinstance(l.value, Const) and isinstance(l.value.v, int):
+                reach[j].add(l.value.v)
+            else:
+                reach[j] |= {0, 1, 2, 3}
     # truth table of the extracted steerer (concrete evaluation of the HIR, lsa/ceval.py): 2 ranks x 4 banks, every selector value, every bank address of the
     # selected command, every non-empty strobe combination.  Specification: a command that issues on phase i selects exactly its rank (cs_n = ~onehot(rank)),
     # or every rank when it comes from the refresher on the phase the multiplexer steers refresh to, and phase.bank carries the bank bits.  Phases that issue
@@ -595,18 +609,19 @@ def rank_decode(ctx):
     from ..ceval import CEval
     from ..bits import Unresolved
     import itertools
-    for i in range(2):
+    total_rows = 0
+    for i in range(nph):
         bank = multi.drivers("dfi.p%d.bank" % i)
         srcs = []
         if len(bank) == 1 and isinstance(bank[0].value, Op) and bank[0].value.op == "select":
             for x in bank[0].value.args[1:]:
                 names = sorted({str(y)[:-len(".ba")] for y in subterms(x) if isinstance(y, (Sym, Obj)) and str(y).endswith(".ba")})
                 srcs.append(names[0] if len(names) == 1 else None)
-        if not ob.need(len(srcs) == 4 and all(srcs), "phase %d: the four command sources of the steerer not identified from the bank select (%s)" % (i, srcs)):
+        if not ob.need(len(srcs) == 4 and all(srcs), "nphases=%d " % nph + "phase %d: the four command sources of the steerer not identified from the bank select (%s)" % (i, srcs)):
             continue
-        cfg = {"len(dfi.p%d.cs_n)" % j: 2 for j in range(2)}
+        cfg = {"len(dfi.p%d.cs_n)" % j: 2 for j in range(nph)}
         cfg.update({"len(%s.ba)" % c_: 3 for c_ in srcs})
-        cfg.update({"len(dfi.p%d.bank)" % j: 3 for j in range(2)})     # the DFI bank field is as wide as the controller's bank address
+        cfg.update({"len(dfi.p%d.bank)" % j: 3 for j in range(nph)})     # the DFI bank field is as wide as the controller's bank address
         nchk = 0
         bad = None
         try:
@@ -614,10 +629,10 @@ def rank_decode(ctx):
             idle = [n_ for n_, c_ in enumerate(srcs) if any(str(o_) == c_ and o_.cls == "Record" for o_ in multi.d.objs)
                     and not any(multi.drivers(c_ + "." + f_) for f_ in ("ras", "cas", "we", "valid"))]
             for k_, b_ in itertools.product(range(4), range(8)):
-                if k_ in idle:
+                if k_ in idle or k_ not in reach[i]:
                     continue
                 for ras, cas, we in ((1, 0, 0), (0, 1, 0), (0, 0, 1), (1, 1, 0), (1, 0, 1), (0, 1, 1), (1, 1, 1)):
-                    env = {"steerer.sel[%d]" % j: (k_ if j == i else 0) for j in range(2)}
+                    env = {"steerer.sel[%d]" % j: (k_ if j == i else 0) for j in range(nph)}
                     for n_, c_ in enumerate(srcs):
                         sel_ = n_ == k_
                         env.update({c_ + ".ba": (b_ if sel_ else (b_ ^ 5)), c_ + ".valid": 1, c_ + ".ready": 1, c_ + ".ras": ras if sel_ else 0,
@@ -625,23 +640,25 @@ def rank_decode(ctx):
                     ce = CEval(multi, env, cfg)
                     got_cs = ce.nextval(Sym("dfi.p%d.cs_n" % i)) & 3
                     got_bank = ce.nextval(Sym("dfi.p%d.bank" % i)) & 3
-                    exp_cs = 0 if (k_ == 3 and i == ref_phase) else (~(1 << (b_ >> 2)) & 3)
+                    exp_cs = 0 if (k_ == 3 and i in ref_phases) else (~(1 << (b_ >> 2)) & 3)
                     nchk += 1
                     if got_cs != exp_cs or got_bank != (b_ & 3):
                         bad = bad or (k_, b_, (ras, cas, we), got_cs, exp_cs, got_bank)
         except Unresolved as e:
             ob.unknown("phase %d: steerer not evaluable (%s)" % (i, e))
             continue
-        if not ob.need(nchk >= 3 * 8 * 7, "phase %d: only %d rows of the steerer truth table could be formed" % (i, nchk)):
-            continue
-        ob.instance("phase %d chip-select / bank truth table" % i, {"command sources": srcs, "rows checked": nchk, "refresh phase": ref_phase}, nontrivial=True)
+        total_rows += nchk
+        if nchk == 0:
+            continue        # a phase the multiplexer never steers anything to
+        ob.instance("nphases=%d phase %d chip-select / bank truth table" % (nph, i), {"command sources": srcs, "rows checked": nchk, "refresh phases": sorted(ref_phases), "nphases": nph}, nontrivial=True)
         if bad:
             k_, b_, st_, got_cs, exp_cs, got_bank = bad
             what = ("all ranks must be selected for a refresher command (ras,cas,we)=%s on phase %d" % (st_, i)) if exp_cs == 0 else \
                 ("rank %d must be selected and bank %d driven" % (b_ >> 2, b_ & 3))
-            ob.refute("all-ranks:p%d" % i if exp_cs == 0 else "rank-split:p%d" % i, "phase %d, selector %d (%s), bank address %s, strobes %s: cs_n becomes %s and bank %d, but %s "
+            ob.refute(("all-ranks:p%d" % i if exp_cs == 0 else "rank-split:p%d" % i) + ("" if nph == 2 else "/%d" % nph), "phase %d, selector %d (%s), bank address %s, strobes %s: cs_n becomes %s and bank %d, but %s "
                       "(expected cs_n = %s): the command reaches the wrong rank / only one rank is precharged or refreshed" %
                       (i, k_, srcs[k_], bin(b_), st_, format(got_cs, "02b"), got_bank, what, format(exp_cs, "02b")), bank[0].loc)
+    ob.need(total_rows >= 2 * 8 * 7, "nphases=%d: only %d rows of the steerer truth table could be formed" % (nph, total_rows))
 
 
 def run(ctx):
@@ -653,5 +670,47 @@ def run(ctx):
     steering_signal_phases(ctx)
     shared_a10(ctx)
     rank_decode(ctx)
+    ddr4_act_mux(ctx)
     ctx.assume("the refresher keeps cmd.valid (refresh_req) high until its sequence is done (C03.6) and precharge-all is issued before "
                "REF/ZQCS (C04.4), so leaving the refresh-grant state implies the bank is precharged")
+
+
+def ddr4_act_mux(ctx):
+    """C02.9: DDR4 shares RAS_n/CAS_n/WE_n with A16/A15/A14 on an ACTIVATE (JESD79-4: ACT_n low, RAS_n/A16, CAS_n/A15, WE_n/A14)."""
+    ob = ctx.ob("C02.9", "DDR4 pin multiplexing behind the controller: on an activate ACT_n is low and RAS_n/CAS_n/WE_n carry row address bits 16/15/14 (JESD79-4), on every "
+                         "other command ACT_n is high and the three strobes pass through - otherwise the device opens another row than the one the controller tracks", 1)
+    from ..ceval import CEval
+    from ..bits import Unresolved
+    import itertools
+    try:
+        v = elab(ctx, "litedram.phy.dfi", "DDR4DFIMux", kwargs={"dfi_i": pobj("dfi_i"), "dfi_o": pobj("dfi_o")},
+                 overrides={"dfi_i.phases": ListV([Sym("i.p0")]), "dfi_o.phases": ListV([Sym("o.p0")])})
+    except Exception as e:
+        ob.unknown("DDR4DFIMux not elaborated (%s)" % str(e)[:80])
+        return
+    cfg = {"len(i.p0.address)": 17, "len(o.p0.address)": 17}
+    for f_ in ("ras_n", "cas_n", "we_n", "act_n", "cs_n"):
+        cfg["len(i.p0.%s)" % f_] = 1
+        cfg["len(o.p0.%s)" % f_] = 1
+    n = 0
+    bad = None
+    try:
+        for ras_n, cas_n, we_n in itertools.product((0, 1), repeat=3):
+            for abits in itertools.product((0, 1), repeat=3):
+                addr = (abits[0] << 14) | (abits[1] << 15) | (abits[2] << 16) | 0x1234
+                env = {"i.p0.ras_n": ras_n, "i.p0.cas_n": cas_n, "i.p0.we_n": we_n, "i.p0.address": addr, "i.p0.act_n": 1, "i.p0.cs_n": 0}
+                ce = CEval(v, env, cfg)
+                got = tuple(ce.val(Sym("o.p0." + f_)) & 1 for f_ in ("act_n", "ras_n", "cas_n", "we_n"))
+                act = (ras_n, cas_n, we_n) == (0, 1, 1)
+                exp = (0, abits[2], abits[1], abits[0]) if act else (1, ras_n, cas_n, we_n)
+                n += 1
+                if got != exp and bad is None:
+                    bad = ((ras_n, cas_n, we_n), abits, got, exp)
+    except Unresolved as e:
+        ob.unknown("DDR4DFIMux not evaluable (%s)" % e)
+        return
+    ob.instance("DDR4 activate multiplexing truth table", {"rows": n}, nontrivial=True)
+    if bad:
+        (st_, ab_, got, exp) = bad
+        ob.refute("ddr4-act-mux", "with (ras_n, cas_n, we_n) = %s and row address bits (A14, A15, A16) = %s the PHY sees (act_n, ras_n/A16, cas_n/A15, we_n/A14) = %s, expected %s: "
+                  "the DRAM activates a different row than the controller believes open" % (st_, ab_, got, exp), None)
